@@ -439,7 +439,11 @@ def main():
         import mutants
         mutants.apply(a.mutant)
     rng = random.Random(a.seed)
-    cfgs = json.loads(a.cfgs)
+    if a.cfgs.startswith("@"):
+        with open(a.cfgs[1:]) as f:
+            cfgs = json.load(f)
+    else:
+        cfgs = json.loads(a.cfgs)
     runs = []
     if a.explicit:
         with open(a.explicit) as f:
